@@ -1,6 +1,7 @@
 mod alloc;
 mod auth;
 mod autoalloc;
+mod bootconf;
 mod checks;
 mod common;
 mod glue;
